@@ -761,6 +761,37 @@ static int run_threads(const char* kind, int nthreads, unsigned seed, int rounds
 // allocate / release cycles, so that release() batches hit the cache at every ring position.
 // Oracle: alignment, pairwise disjointness of ALL live blocks of all resources, canaries before
 // every release, and "no page is in the cache twice / in the cache while a live block uses it".
+//
+// cap == 0: the resources sit directly on a NewDeletePageAllocator (set_page_size(ps)); otherwise on
+// a PageHeap{cap, ps}.  A forwarding spy between resource and library allocator only OBSERVES the
+// pages (the memory and its alignment are the library's): it checks the assumption the resource
+// and the model make about every page allocator -- pages are page_size-aligned (`page_misaligned`)
+// and not handed out while still out (`page_twice`) -- and supplies the containment oracle.
+struct SpyPA : public PageAllocator {
+  PageAllocator* up = nullptr;
+  std::set<char*> live;
+  std::vector<std::string> errors;
+  virtual size_t page_size() const noexcept override { return up->page_size(); }
+  using PageAllocator::allocate;
+  using PageAllocator::deallocate;
+  virtual void allocate(void** pages, size_t num) noexcept override {
+    up->allocate(pages, num);
+    size_t ps = up->page_size();
+    for (size_t i = 0; i < num; ++i) {
+      char* p = reinterpret_cast<char*>(pages[i]);
+      if (reinterpret_cast<uintptr_t>(p) % ps != 0)
+        errors.push_back("page_misaligned the library page allocator returned a page that is not page_size-aligned (page_size " +
+                         std::to_string(ps) + ", address mod page_size " + std::to_string(reinterpret_cast<uintptr_t>(p) % ps) + ")");
+      if (!live.insert(p).second) errors.push_back("page_twice the page allocator hands out a page that is still out");
+    }
+  }
+  virtual void deallocate(void** pages, size_t num) noexcept override {
+    for (size_t i = 0; i < num; ++i)
+      if (!live.erase(reinterpret_cast<char*>(pages[i]))) errors.push_back("bad_page_free page returned that is not out");
+    up->deallocate(pages, num);
+  }
+};
+
 static int run_pageheap(unsigned seed, size_t ps, size_t cap, int cycles) {
   int failures = 0;
   auto fail = [&](const std::string& s) {
@@ -769,8 +800,16 @@ static int run_pageheap(unsigned seed, size_t ps, size_t cap, int cycles) {
   };
   long nblocks = 0, nreleases = 0, ndrains = 0;
   {
-    PageHeap heap {cap, ps};
+    PageHeap real_heap {cap == 0 ? 1 : cap, ps};
+    NewDeletePageAllocator plain;
+    plain.set_page_size(ps);
+    SpyPA heap;
+    heap.up = cap == 0 ? static_cast<PageAllocator*>(&plain) : static_cast<PageAllocator*>(&real_heap);
     ps = heap.page_size();
+    auto spy_errors = [&]() {
+      for (auto& e : heap.errors) fail(e);
+      heap.errors.clear();
+    };
     struct Owner {
       std::unique_ptr<MonotonicBufferResource> res;
       std::vector<Blk> blocks;
@@ -793,7 +832,7 @@ static int run_pageheap(unsigned seed, size_t ps, size_t cap, int cycles) {
     };
     auto drain_check = [&]() {
       ++ndrains;
-      size_t n = heap.free_page_num();
+      size_t n = cap == 0 ? 0 : real_heap.free_page_num();
       if (n == 0) return;
       std::vector<void*> pg(n);
       heap.allocate(pg.data(), n);
@@ -816,6 +855,7 @@ static int run_pageheap(unsigned seed, size_t ps, size_t cap, int cycles) {
         o.blocks.clear();
         ++nreleases;
         drain_check();
+        spy_errors();
         if (failures) {
           // the allocator's cache is corrupt: stop here, skipping destructors that would free pages twice
           std::printf("pageheap seed=%u ps=%zu cap=%zu cycles=%d stopped at cycle %d blocks=%ld releases=%ld failures=%d\n", seed, ps,
@@ -834,11 +874,30 @@ static int run_pageheap(unsigned seed, size_t ps, size_t cap, int cycles) {
           case 2: bytes = ps; break;
           default: bytes = 1 + rng() % 64;
         }
-        size_t align = size_t(1) << (rng() % 7);
+        // alignments 1 .. page size (and sometimes 2 * page size, which goes upstream)
+        size_t lg = 0;
+        while ((size_t(1) << lg) < ps) ++lg;
+        size_t align;
+        switch (rng() % 4) {
+          case 0: align = ps; break;
+          case 1: align = ps >> (1 + rng() % 2); break;
+          case 2: align = rng() % 8 == 0 ? 2 * ps : size_t(1) << (rng() % (lg + 1)); break;
+          default: align = size_t(1) << (rng() % 7);
+        }
+        if (align == 0) align = 1;
         char* p = reinterpret_cast<char*>(o.res->allocate(bytes, align));
         Blk b {p, bytes, align, static_cast<uint8_t>(rng())};
         ++nblocks;
-        if (reinterpret_cast<uintptr_t>(p) % align != 0) fail("misaligned");
+        spy_errors();
+        if (reinterpret_cast<uintptr_t>(p) % align != 0)
+          fail("misaligned block at page offset " + std::to_string(reinterpret_cast<uintptr_t>(p) % ps) + " not aligned to the requested " +
+               std::to_string(align) + " (page_size " + std::to_string(ps) + ")");
+        if (align <= ps) {  // bytes <= ps here: the block must lie inside a page that is out
+          auto it = heap.live.upper_bound(p);
+          bool in = false;
+          if (it != heap.live.begin()) { --it; in = *it <= p && p + bytes <= *it + ps; }
+          if (!in) fail("not_owned block outside every page the allocator handed out");
+        }
         bool clash = false;
         for (auto& x : owners)
           for (auto& y : x.blocks)
@@ -851,6 +910,12 @@ static int run_pageheap(unsigned seed, size_t ps, size_t cap, int cycles) {
         }
         o.blocks.push_back(b);
       }
+      if (failures >= 3) {  // enough evidence; do not flood the replay
+        std::printf("pageheap seed=%u ps=%zu cap=%zu cycles=%d stopped at cycle %d blocks=%ld releases=%ld failures=%d\n", seed, ps,
+                    cap, cycles, c, nblocks, nreleases, failures);
+        std::fflush(stdout);
+        _exit(1);
+      }
     }
     for (auto& x : owners) verify(x);
     for (auto& x : owners) {
@@ -858,7 +923,9 @@ static int run_pageheap(unsigned seed, size_t ps, size_t cap, int cycles) {
       x.blocks.clear();
     }
     drain_check();
-    if (heap.allocate_page_num() != 0) fail("leak_page PageHeap still counts pages as allocated after every resource was released");
+    spy_errors();
+    if (!heap.live.empty()) fail("leak_page " + std::to_string(heap.live.size()) + " pages still out after every resource was released");
+    if (cap != 0 && real_heap.allocate_page_num() != 0) fail("leak_page PageHeap still counts pages as allocated after every resource was released");
     owners.clear();
   }
   std::printf("pageheap seed=%u ps=%zu cap=%zu cycles=%d blocks=%ld releases=%ld drains=%ld failures=%d\n", seed, ps, cap, cycles,
